@@ -39,6 +39,8 @@ TOK_ASSUME = [
     'A-std-iter (T9, T10): assumed contracts of Peekable<Chars>::peek / next, char::is_ascii_digit, and of the two adapter idioms clone().take(n).collect::<String>() and by_ref().take(n).for_each(drop); Tokenizer::new is chars().peekable()',
     'A-std-parse (T16): str::parse::<f64|i64> and Decimal::from_str are uninterpreted partial functions of the text',
     'T17: `impl Iterator for Tokenizer` is read as an inherent impl (the body of next is unchanged)',
+    'T25: `peek == "lit"` and `match peek.as_str() { "lit" => .. }` are read as tests by the helper verif_peek_is (body = the original comparison; assumed: String == &str compares the characters); '
+    'the lexical specification (names, aliases, symbols per evaluator) is generated from spec/tables.json, written from the README',
 ]
 
 GLUES = ['i64-glue', 'f64-glue', 'number-glue', 'decimal-glue', 'complex-glue']
@@ -85,14 +87,13 @@ PLAN = {
                 unclaimed=[
                            'the global bound 4096 + 256*len is derived on paper from the per-function measures, not machine-checked']),
     'C10': dict(verus=ALL_V, kani=['i64-ast', 'f64-ast', 'number-ast', 'number-l4'], level='proof', assumptions=AST_ASSUME + F64_ASSUME + PARSER_ASSUME,
-                unclaimed=['function names / aliases as text (tokenizer keyword arms)', 'numerical accuracy of libm-backed functions, gamma, Lambert W (A-libm: which primitive is applied to which operands is proved, not what it computes)']),
+                unclaimed=['numerical accuracy of libm-backed functions, gamma, Lambert W (A-libm: which primitive is applied to which operands is proved, not what it computes)']),
     'C11': dict(verus=ALL_V, kani=['f64-ast', 'number-ast'], level='proof', assumptions=AST_ASSUME + F64_ASSUME + PARSER_ASSUME,
                 unclaimed=['the value of eval_decimal aggregates (error propagation and panic-freedom only)',
                            'med of two or more arguments in eval_f64 / eval_number / eval_decimal beyond: NaN if any argument is NaN, no panic (the middle of a sorted permutation is not a function of the multiset when 0.0 and -0.0 both occur)',
                            'independence of the argument order: the code is proved to compute the left fold of the binary min / max / gcd / lcm; that these folds are order-independent is mathematics not machine-checked here']),
-    'C13': dict(verus=PARSERS + GLUES + ['f64-ast', 'number-ast'], kani=['f64-ast', 'number-ast'], level='proof', assumptions=PARSER_ASSUME + GLUE_ASSUME,
-                unclaimed=['alias spellings as text (tokenizer keyword arms map names to tokens: verified for panic-freedom and progress only); what is proved for aliases is that the alias nodes '
-                           '(Arsinh/Arcosh/Artanh ..) apply the same primitive']),
+    'C13': dict(verus=PARSERS + GLUES + TOKS + ['f64-ast', 'number-ast'], kani=['f64-ast', 'number-ast'], level='proof', assumptions=PARSER_ASSUME + GLUE_ASSUME + TOK_ASSUME,
+                unclaimed=[]),
     'C14': dict(verus=ALL_V, kani=['f64-ast', 'number-ast'], level='proof', assumptions=AST_ASSUME + F64_ASSUME + PARSER_ASSUME,
                 unclaimed=[]),
     'C05': dict(verus=['f64-ast', 'f64-parser', 'f64-glue'], kani=['f64-ast'], level='proof',
@@ -108,7 +109,7 @@ PLAN = {
     'C08': dict(verus=['complex-ast', 'complex-parser', 'complex-tok', 'complex-glue'], kani=['complex-ast'], level='proof',
                 assumptions=KANI_ASSUME + PARSER_ASSUME + ['A-numcomplex: contract header for num_complex::Complex<f64> (every operation total, results uninterpreted): '
                              'what is proved for * / ^ pow sqrt root exp exp2 ln lb log abs and the trigonometric / hyperbolic functions is which num_complex operation is applied to which operands in which order'],
-                unclaimed=['the 1e-12 / 1e-9 closeness of num_complex operations to the textbook definitions', '`pi` staying the constant next to `p` + `i` (keyword arms)',
+                unclaimed=['the 1e-12 / 1e-9 closeness of num_complex operations to the textbook definitions',
                            'agreement with eval_f64 on real operands']),
     'C09': dict(verus=['number-ast', 'number-tok', 'number-glue'], kani=['number-ast', 'number-l4'], level='proof', assumptions=F64_ASSUME + KANI_ASSUME + TOK_ASSUME,
                 unclaimed=['bit-level meaning of the IEEE primitives (A-ieee in the Verus unit: each is an uninterpreted total function; Kani proves + - * unary minus abs and the rounding functions bit-exact, / and % on a bounded domain)']),
@@ -145,9 +146,9 @@ PLAN = {
         unclaimed=[],
     ),
     'C03': dict(verus=PARSERS + TOKS + GLUES, level='proof', assumptions=PARSER_ASSUME + TOK_ASSUME,
-                unclaimed=['the keyword table of the tokenizers (a function name is recognised only before `(`, foreign names yield None): keyword arms are verified for panic-freedom and progress only']),
-    'C04': dict(verus=PARSERS, kani=['tables'], level='proof', assumptions=PARSER_ASSUME, unclaimed=[]),
-    'C12': dict(verus=PARSERS, level='proof', assumptions=PARSER_ASSUME, unclaimed=[]),
+                unclaimed=[]),
+    'C04': dict(verus=PARSERS + TOKS, kani=['tables'], level='proof', assumptions=PARSER_ASSUME + TOK_ASSUME, unclaimed=[]),
+    'C12': dict(verus=PARSERS + TOKS, level='proof', assumptions=PARSER_ASSUME + TOK_ASSUME, unclaimed=[]),
 }
 
 
@@ -172,20 +173,20 @@ LEVEL_TEXT = {
     'C02': _V + 'owned obligations = the decreases clauses of every loop and every (mutual) recursion in the tokenizers (measure: characters left; every token consumes at least one), the parsers (measure: tokens left), '
                 'all five evaluators (structural recursion, Euclid, factorial with its caps 170 / 20, Lambert W capped at 128 iterations, ilog capped at 64 steps); Kani cross-checks the caps of eval_f64 and eval_number '
                 'with unwinding assertions over the full operand domain. The global figure 4096 + 256*len is derived on paper from these per-function measures.',
-    'C03': _V + 'every Parser method of the five evaluators refines a table-driven specification parser (Ok iff the spec parser accepts and the whole token stream is consumed); the tokenizers yield Eof exactly at the end of input; '
+    'C03': _V + 'every Parser method of the five evaluators refines a table-driven specification parser (Ok iff the spec parser accepts and the whole token stream is consumed); the tokenizers refine a lexical specification generated from the README vocabulary (a function name or alias is a token only directly before `(`, unknown characters and unknown words are rejected, Eof exactly at the end of input); '
                 'the public wrappers return Err iff the stripped text does not parse. Owned: parse (Eof), check_paren, argument-list methods, reject exits, wrapper.',
     'C04': _V + 'get_oper_prec equals the precedence table, generate_ast is precedence climbing with strict <, every binary / prefix / postfix / bracket arm builds the node and uses the operand level the tables give; '
                 'Kani proves on the real derive that the derived order of OperatorCategory is the precedence order.',
     'C06': _V + 'eval_i64::ast::eval returns the exact integer of the mathematical specification spec_eval or Err, for all trees; overflow obligations of every arithmetic arm are discharged; Kani cross-checks each arm with bit-vector semantics '
                 '(shifts as multiplication / floor division by 2^y) and supplies replayable counterexamples.',
-    'C10': _V + 'arity and argument order of every function in all five parsers (refinement to the function table); exact integer functions of eval_i64; the mapping of every function node to the rust_decimal / num_complex operation (headers); '
+    'C10': _V + 'every README name and alias lexes to its function token in each evaluator that offers it (lexical specification of the tokenizers); arity and argument order of every function in all five parsers (refinement to the function table); exact integer functions of eval_i64; the mapping of every function node to the rust_decimal / num_complex operation (headers); '
                 'every function node of eval_f64 and eval_number applies the named IEEE / libm primitive to its children\'s values in the stated order (primitives uninterpreted), with Number::from applied to the result in eval_number; '
                 'Kani: every function arm of eval_f64 / eval_number / eval_i64 applies the named libm primitive once to the operands in the stated order (recording stubs), exact ones (abs, floor, ceil, trunc, round with ties away from zero, sgn(0)=0) bit-exactly.',
     'C11': _V + 'eval_i64 aggregates (min max avg med gcd lcm) for any arity against fold specifications over the sequence of argument values, error propagation; variadic argument lists and the empty-list policy in the four parsers that have them; '
                 'eval_f64 and eval_number aggregates for any arity: min / max are the fold of the IEEE min / max (eval_number: of the comparison of the double values, keeping the argument) from the identity, avg is the left-to-right sum divided by the count, '
                 'med is NaN if any argument is NaN and the argument itself for one argument, a failing argument makes the aggregate fail; eval_decimal aggregates: error propagation and panic-freedom.',
     'C12': _V + 'implicit_multiply, its call sites and parse (Eof) refine the juxtaposition rule of the specification parser (trigger sets, operand level Multiplicative, node order, no literal after a literal, no product at @ / constants / superscripts / degree signs) in all five parsers.',
-    'C13': _V + 'the notation arms (floor/ceil brackets, mod/pow functions, superscripts, prefix +, redundant brackets) build the same nodes as their synonyms, by refinement to the tables, in all five parsers; the public wrappers hand exactly '
+    'C13': _V + 'the notation arms (floor/ceil brackets, mod/pow functions, superscripts, prefix +, redundant brackets) build the same nodes as their synonyms, by refinement to the tables, in all five parsers; alias spellings (sign / sgn / signum, trunc / truncate, med / median, asinh / arsinh .., w / lambert_w, pi / π) lex to the same token; the public wrappers hand exactly '
                 'the whitespace-stripped text to the parser; the alias nodes apply the same primitive (Kani).',
     'C14': _V + 'the `@` arm yields the leaf holding the stored placeholder and takes no part in implicit multiplication; Parser::new stores the placeholder; the wrappers pass Some(placeholder) and return the evaluator\'s value unchanged; '
                 'the leaf arm of every evaluator returns its payload bit for bit (Verus, all five; Kani f64 / number again).',
